@@ -59,7 +59,9 @@ Theorem circ_valid_exact :
 Proof. exact is_valid_exact. Qed.
 Print Assumptions circ_valid_exact.
 
-(* skip conditions, part 2 (circRNA): a block is found among the transcript's exons exactly when it is one *)
+(* skip conditions, part 2 (circRNA): a block is found among the transcript's exons exactly when it is one.
+   [exons_asc] only asks for non-empty exons in ascending order: zero-length introns (abutting exons), 1-nt
+   introns and 1-nt exons are covered *)
 Theorem circ_exon_match_exact :
   forall a b,
     g_strand (ca_gene a) = 1 \/ g_strand (ca_gene a) = -1 -> exons_asc (ca_exons a) ->
@@ -119,3 +121,11 @@ Example circ_example_ciRNA :
   convert_circ x_anno (mkCerec 31 41 [10] [0] 3 1 0 0) (-2, 0) (-100, 5) =
   COk (mkCirc [(14, 24)] [0] 14 24).
 Proof. vm_compute. reflexivity. Qed.
+(* abutting exons (zero-length intron) on a minus-strand transcript: the lower exon of the pair is still found *)
+Definition x_anno_abut := mkCanno (mkGene (-1) 5 55) [(5, 15); (20, 30); (30, 40); (45, 55)].
+Example circ_example_abutting :
+  exons_asc (ca_exons x_anno_abut) /\
+  find_exon_index x_anno_abut (block_in_gene (ca_gene x_anno_abut) (20, 30)) = Some 2 /\
+  convert_circ x_anno_abut (mkCerec 20 40 [10; 10] [0; 10] 3 0 0 0) (0, 0) (0, 0) =
+  COk (mkCirc [(25, 35); (15, 25)] [] 15 35).
+Proof. split; [cbn; lia|]. split; vm_compute; reflexivity. Qed.
